@@ -396,6 +396,53 @@ def rule_unconditional(F, R):
     R.floor("R-C14-8", n, 2, "guards of the affine conversion")
 
 
+def rule_scratch_buffers(F, R):
+    """R-C14-9: dataset_t::flatten(samples, buffer) / targets(samples, buffer) return a view of exactly the requested rows; the buffer argument is
+    grow-only scratch storage (resize_and_map never shrinks it), so after a shorter batch it still holds rows of an earlier one. The statistics
+    (and everything else) must therefore be fed the returned view: the call's value is used, and the buffer object is read nowhere else in the
+    function - it only ever appears as the buffer argument of such calls."""
+    n = 0
+    for f in F.functions.values():
+        if f.body is None or not f.relfile.startswith("src/dataset/") or f.cls == "nano::dataset_t":
+            continue
+        calls = [c for c in f.calls(lambda c: callee(c) in ("nano::dataset_t::flatten", "nano::dataset_t::targets") and len(args(c)) == 2)]
+        if not calls:
+            continue
+        buf_arg_ids = set()
+        bufs = {}
+        for c in calls:
+            b = skip(args(c)[1])
+            for y in walk(b):
+                buf_arg_ids.add(y["i"])
+            root = b
+            while root["k"] in ("call", "idx") and root.get("c"):
+                root = skip(root["c"][0])       # m_buffers[tnum] -> m_buffers
+            key = ("var", root.get("d")) if root["k"] == "ref" else ("mem", root.get("n")) if root["k"] == "mem" else None
+            n += 1
+            inst = "%s %s@%d" % (f.name if not f.is_lambda else "lambda", callee(c).split("::")[-1], c["l"])
+            par = f.parent_of(c)
+            while par is not None and par["k"] in ("cast", "paren", "construct", "bind", "materialize", "defarg"):
+                par = f.parent_of(par)
+            used = par is not None and par["k"] in ("var", "call", "return", "bin", "declstmt", "init", "construct")
+            R.check(used, "R-C14-9", inst + " result", f.loc(c), "the returned view (exactly the requested rows) is what the caller goes on with",
+                    "the view returned by `%s` is discarded: only the scratch buffer is left, whose extent is that of the largest batch seen so far" % pp(c)[:70])
+            if key is not None:
+                bufs.setdefault(key, (pp(b), c))
+        for key, (txt, c) in bufs.items():
+            reads = []
+            for y in f.nodes():
+                if y["i"] in buf_arg_ids:
+                    continue
+                if (key[0] == "var" and y["k"] == "ref" and y.get("d") == key[1]) or (key[0] == "mem" and y["k"] == "mem" and y.get("n") == key[1]):
+                    reads.append(y)
+            R.check(not reads, "R-C14-9", "%s scratch `%s`" % (f.name if not f.is_lambda else "lambda@%d" % f.line, txt[:30]), f.loc(c),
+                    "the scratch buffer is only ever handed to flatten()/targets()",
+                    "`%s` is the grow-only scratch buffer of flatten()/targets() but is also read at line %s: after a full batch a shorter batch leaves rows of the previous one "
+                    "in its tail, so whatever consumes the buffer sees samples twice (statistics: inflated counts, shifted mean / deviation)" % (
+                        txt[:40], ", ".join(str(y["l"]) for y in reads[:3])))
+    R.floor("R-C14-9", n, 6, "flatten()/targets() calls with a scratch buffer in src/dataset")
+
+
 def run(ctx):
     R = ctx.report
     F = ctx.facts(TUS)
@@ -403,3 +450,4 @@ def run(ctx):
     rule_done(F, R)
     rule_upscale(F, R)
     rule_unconditional(F, R)
+    rule_scratch_buffers(ctx.facts(TUS + ["src/dataset/iterator.cpp"]), R)
